@@ -14,6 +14,7 @@ from harness.obs import keys_term, parse_key
 from harness.tracing_store import Trace, TracingStore, is_chunk_key
 
 LEVEL = "proof"
+TRANSLATED_KERNELS = ["_cumsum", "get_item"]   # harness/translate.py: the region a task writes for its block coordinates (key_to_slices -> get_item) re-translated from /repo on every run and proved equal to Model.Geometry.get_item
 RULE = ("scenarios: generated programs (incl. multi-output unstack, reductions), rechunks under tight memory (multi-stage, regular and "
         "irregular intermediate grids), stores into existing Zarr arrays of other chunking / sharded, region stores; every plan runs "
         "on the sequential adversarial executor over tracing stores (intermediate store AND user targets) so each get/set is attributed "
